@@ -178,6 +178,28 @@ Definition dec_bin_datetime (d : bytes) : option ((N * N * N * N * N * N * N) * 
   | _ => None
   end.
 
+(* text DATE / DATETIME: YYYY-MM-DD[ HH:MM:SS[.ffffff]] at fixed positions *)
+Definition dec_text_date (t : bytes) : option (N * N * N) :=
+  match t with
+  | [a; b; c; d; 45; e; f; 45; g; h] =>
+      match undec_N [a; b; c; d], undec_N [e; f], undec_N [g; h] with
+      | Some y, Some m, Some dd => Some (y, m, dd)
+      | _, _, _ => None
+      end
+  | _ => None
+  end.
+Definition dec_text_datetime (t : bytes) : option (N * N * N * N * N * N * N) :=
+  match dec_text_date (take 10 t), drop 10 t with
+  | Some (y, m, dd), [] => Some (y, m, dd, 0, 0, 0, 0)
+  | Some (y, m, dd), 32 :: a :: b :: 58 :: c :: d :: 58 :: e :: f :: r =>
+      match undec_N [a; b], undec_N [c; d], undec_N [e; f],
+            (match r with [] => Some 0 | 46 :: fr => if (length fr =? 6)%nat then undec_N fr else None | _ => None end) with
+      | Some h, Some mi, Some s, Some us => Some (y, m, dd, h, mi, s, us)
+      | _, _, _, _ => None
+      end
+  | _, _ => None
+  end.
+
 (* a text row: per column 0xFB (NULL) or a length-encoded string *)
 Fixpoint dec_text_row (n : nat) (d : bytes) : option (list (option bytes) * bytes) :=
   match n with
